@@ -200,9 +200,19 @@ def execute(trace):
     # ---- 2. the history of bulk calls, all in this one process
     failed_in_base = set()
 
-    def call(entries, tag, kind_for_mismatch):
+    def call(entries, tag, kind_for_mismatch, save=False):
         op = {"op": "bulk", "pairs": _pairs(entries), "mode": mode, "vr": vr, "as": trace["as"], "container": trace.get("container", "list")}
-        r = apiops.run_op(op)
+        if save:
+            # the same call with save_report=True (report and its console line go to a sandbox): same results
+            op["save"] = True
+            sroot = base.new_sandbox("c12rep")
+            try:
+                with apiops.Effects(sroot):
+                    r = apiops.run_op(op)
+            finally:
+                base.rm_tree(sroot)
+        else:
+            r = apiops.run_op(op)
         bump("calls")
         events.append((tag, r))
         if "exc" in r:
@@ -259,6 +269,7 @@ def execute(trace):
         for pos in trace["positions"]:
             call(L[:pos] + [trace["poison"]] + L[pos:], "poison@%d" % pos, "insertion")
         call(L + L, "doubled", "repetition")
+        call(L, "with-report", "report-variant", save=True)
         r9 = call(L, "again", "repetition")
         if r0 is not None and r9 is not None and r0 != r9:
             V("repetition", call="again", first=repr(r0)[:300], second=repr(r9)[:300])
